@@ -93,6 +93,26 @@ fn main() {
             .collect();
         sink.merge(struct_sweep(&run, &[&SCT_LIST], &lists, 0, &sfx, 16, &extra));
     }
+    // v1 entries that are at the same time well-formed CT v2 TransItems (solved against the RFC 9162 layout), single and in lists
+    {
+        let poly = cat::sct_v2_polyglots();
+        sink.bump("v1 / v2 polyglot entries", poly.len() as u64);
+        sink.merge(struct_sweep(&run, &[&SCT], &poly, 0, &sfx, 16, &extra));
+        let lists: Vec<W> = poly
+            .iter()
+            .step_by(run.tier.pick(5, 1))
+            .map(|e| {
+                let mut w = W::new();
+                w.block(2, "list", |w| {
+                    cat::sct_entry(w, 0, 5, 0, 4, 3, 2);
+                    w.append(e);
+                    cat::sct_entry(w, 0, 6, 0, 4, 3, 2);
+                });
+                w
+            })
+            .collect();
+        sink.merge(struct_sweep(&run, &[&SCT_LIST], &lists, 0, &sfx, 16, &extra));
+    }
     sink.merge(struct_sweep(&run, &[&SCT], &wrapped(&cat::scts(false), 1), 0, &sfx, 16, &extra));
     sink.merge(struct_sweep(&run, &[&SCT_LIST], &wrapped(&cat::sct_lists(false), 1), 0, &sfx, 16, &extra));
     sink.merge(struct_sweep(&run, &[&SCT_LIST], &cat::sct_lists_many(), run.tier.pick(0, 1), &sfx, 32, &extra));
